@@ -64,6 +64,17 @@ def trace_job(args):
                 sig = "c03-refresh-tras"
             r.violations.append(dict(signature=sig, what="%s 1:%d, cycle %d: %s" % (cfg["memtype"], cfg["nphases"], cyc, msg),
                                      replay=dict(tag, violation_cycle=cyc, rule=msg, dfi_window=[x.split()[4 * cs["nbm"]:] for x in cs["obs"][lo:cyc + 1]])))
+    if prop == "C03":
+        # the monitor of the composed-controller theorem (controller cycles, the controller's own settings)
+        tv = corelib.run_timing_monitor(cfg, cs["obs"], cs["nbm"])
+        meets = bool(cs["wf2"] and corelib.wf3(cfg))
+        r.coverage["configs_meeting_theorem_hypotheses_WF3"] = int(meets)
+        if tv and not r.violations:
+            cyc = int(tv.split()[1])
+            what = "%s 1:%d, cycle %d: %s" % (cfg["memtype"], cfg["nphases"], cyc, " ".join(tv.split()[2:]))
+            if not meets:
+                what += " [this configuration does not meet WF3 (twtr <= tRP + tRFC): outside the theorem, still a violation of the property]"
+            r.violations.append(dict(signature="c03-timingmon", what=what, replay=dict(tag, violation_cycle=cyc, dfi_window=[x.split()[4 * cs["nbm"]:] for x in cs["obs"][max(0, cyc - 12):cyc + 1]])))
     if prop == "C04" and cfg["ctrl"]["with_refresh"]:
         t = cfg["timing"]; c = cfg["ctrl"]
         post = c["refresh_postponing"]
